@@ -19,7 +19,8 @@ REPO = os.environ.get("VERIF_REPO", "/repo")
 def main():
     pid = sys.argv[1]
     filt = sys.argv[2] if len(sys.argv) > 2 else None
-    muts = json.load(open(os.path.join(VERIF, "mutants", pid + ".json")))
+    corpus = os.environ.get("VERIF_CORPUS", "mutants")
+    muts = json.load(open(os.path.join(VERIF, corpus, pid + ".json")))
     scratch = tempfile.mkdtemp(prefix="lcp_mut_")
     try:
         subprocess.check_call(["rsync", "-a", "--exclude", ".git", "--exclude", "*.o", "--exclude", "*.a",
@@ -54,9 +55,15 @@ def main():
                 open(p, "w").write(cur)
             ran += 1
             out = r.stdout
-            hit = r.returncode == 1 and "VIOLATION property=%s" % pid in out and (m.get("expect_rule", "") in out)
-            print("%s %-40s rc=%d %s" % ("caught" if hit else "MISSED", m["name"], r.returncode,
-                                         "" if hit else out.strip().splitlines()[-3:]))
+            if m.get("expect") == "clean":
+                # behaviour-preserving edit: must not alarm (exit 0; exit 2 = anchor renamed is tolerated when allowed)
+                hit = r.returncode == 0 or (r.returncode == 2 and m.get("allow_broken"))
+                print("%s %-40s rc=%d %s" % ("quiet " if hit else "FALSE-ALARM", m["name"], r.returncode,
+                                             "" if hit else out.strip().splitlines()[-3:]))
+            else:
+                hit = r.returncode == 1 and "VIOLATION property=%s" % pid in out and (m.get("expect_rule", "") in out)
+                print("%s %-40s rc=%d %s" % ("caught" if hit else "MISSED", m["name"], r.returncode,
+                                             "" if hit else out.strip().splitlines()[-3:]))
             if not hit:
                 missed += 1
         print("%d mutants run, %d missed" % (ran, missed))
